@@ -146,13 +146,19 @@ def build_unit(sidecar_path, sources, variant=None):
         if variant is not None and f.get("only_variant") not in (None, variant):
             continue
         src = sources(f.get("source", default_src))
+        decl = False
         try:
             ex = extract_fn(src, f, rules)
         except Undecided as e:
-            # isolate: this obligation is undecided; the rest of the unit is still built (if something
-            # else needs the missing function, Verus rejects the unit and everything is undecided as before)
+            # isolate: this obligation is undecided; the rest of the unit is still built, with this function as a
+            # DECLARATION (signature + contract, no body) where that much can still be extracted, so that its
+            # callers in the unit are judged against the contract as for any callee
             u.skipped[f"{u.name}/{f.get('ob', f.get('as_free') or f['path'].split('::')[-1])}"] = f"{e.reason}: {e.detail}"
-            continue
+            try:
+                ex = extract_fn(src, dict(f, vx_decl_only=True), rules)
+                decl = True
+            except Exception:  # noqa: BLE001
+                continue
         for k, v in ex["counts"].items():
             u.counts[k] = u.counts.get(k, 0) + v
         item = ex["item"]
@@ -183,8 +189,9 @@ def build_unit(sidecar_path, sources, variant=None):
             vnames.append(f"{u.name}::{name}")
         body = f"// ---- extracted fn {f['path']} from {src.label} bytes {item['range']}  obligation {ob}\n" + ex["text"]
         body = no_loop_isolation(body, f, sc)
-        ch = Chunk("fn:" + f["path"], body, ob=ob, kind="fn", meta={"hash": ex["hash"], "raw": ex["raw"], "vnames": vnames, "spec": f, "trait_impl": bool(enc is not None and " as " in enc["path"])})
-        u.functions_under_contract.append(f["path"])
+        ch = Chunk("fn:" + f["path"], body, ob=(None if decl else ob), kind=("decl" if decl else "fn"), meta={"hash": ex["hash"], "raw": ex["raw"], "vnames": vnames, "spec": f, "trait_impl": bool(enc is not None and " as " in enc["path"])})
+        if not decl:
+            u.functions_under_contract.append(f["path"])
         if key is None:
             groups.append((None, None, [ch]))
         else:
@@ -194,7 +201,8 @@ def build_unit(sidecar_path, sources, variant=None):
                     break
             else:
                 groups.append((key, hdr, [ch]))
-        u.fns.append(ch)
+        if not decl:
+            u.fns.append(ch)
         if f.get("after"):
             groups.append((None, None, [Chunk("after:" + f["path"], f["after"], kind="spec")]))
     # R31 closure conversion
